@@ -10,7 +10,8 @@
 //	start  {inst, write, ok, err}                         a server was started on the current files
 //	asset  {inst, asset, listed, cls, diff}               its answers for one asset (cls: per request class
 //	                                                      [c, n, n200, n404, dig]; dig = digest over (url,status,body digest))
-//	tl     {inst, asset, rep, N, n0, tfdt, dur}           cache-enabled read-mode instances: the served segments n0.. of one
+//	tl     {inst, asset, rep, N, n0, t0, tfdt, dur, ovf} (times relative to t0 = the first one; ovf: a value did not fit 32 bits)
+//	                cache-enabled read-mode instances: the served segments n0.. of one
 //	                                                      representation (first tfdt and total sample duration of each)
 //	mtl    {inst, asset, rep, N, t, d, st, tfdt}          the scanning server (inst -1) and the same instances: the first N+2 entries
 //	                                                      (t, d) the SegmentTimeline MPD declares and, per entry, status and first
@@ -91,6 +92,8 @@ var mappings = [][2]string{
 	{"testpic_2s/thumbs", "testpic_2s/V300"},
 	{"g_twov/V600", "g_1001tl/V300"},
 	{"g_gap/V300", "g_gap/A48"},
+	{"r15360_7975/V300", "r15360_fl/V300"},
+	{"r44100_fl/V300", "r44100_8000/V300"},
 }
 
 // ---------------------------------------------------------------- VoD root with ground truth
@@ -107,6 +110,8 @@ type assetTruth struct {
 	// MediaGap: the sample durations of the first video segment end before the second segment's decode time (legal; the
 	// loaded table lets a segment end where the next starts). The media-derived window is not judged for its video.
 	MediaGap bool
+	Rounding bool // member of the loop-duration family
+	Gen      bool // generated: N, durations, timescale, loop known by construction
 }
 
 func copyTree(src, dst string) error {
@@ -195,8 +200,36 @@ func repIDs(dir string) (mpds, reps []string, err error) {
 	return mpds, project.SortedKeys(seen), nil
 }
 
+// shortenLastSample rewrites a generated media segment with the duration of its last sample changed by -cut ticks
+// (cut < 0 lengthens). Returns the new duration of that sample.
+func shortenLastSample(path string, nominal uint32, cut int) error {
+	raw, err := os.ReadFile(path)
+	if err != nil {
+		return err
+	}
+	f, err := mp4.DecodeFile(bytes.NewReader(raw))
+	if err != nil {
+		return err
+	}
+	if len(f.Segments) != 1 || len(f.Segments[0].Fragments) == 0 {
+		return fmt.Errorf("%s: unexpected structure of generated segment", path)
+	}
+	frs := f.Segments[0].Fragments
+	trun := frs[len(frs)-1].Moof.Traf.Trun
+	last := len(trun.Samples) - 1
+	if !trun.HasSampleDuration() || trun.Samples[last].Dur != nominal {
+		return fmt.Errorf("%s: generated segment has no per-sample durations of %d", path, nominal)
+	}
+	trun.Samples[last].Dur = uint32(int(nominal) - cut)
+	var buf bytes.Buffer
+	if err := f.Encode(&buf); err != nil {
+		return err
+	}
+	return os.WriteFile(path, buf.Bytes(), 0o644)
+}
+
 // buildMaster creates the VoD root: a bundled asset, admissible generated layouts, inadmissible layouts.
-func buildMaster(root string) ([]*assetTruth, error) {
+func buildMaster(root string, thoroughLayouts bool) ([]*assetTruth, error) {
 	if err := os.MkdirAll(root, 0o755); err != nil {
 		return nil, err
 	}
@@ -273,29 +306,7 @@ func buildMaster(root string) ([]*assetTruth, error) {
 		if err != nil {
 			return nil, err
 		}
-		sp := filepath.Join(root, "g_gap", "V300", "1.m4s")
-		raw, err := os.ReadFile(sp)
-		if err != nil {
-			return nil, err
-		}
-		f, err := mp4.DecodeFile(bytes.NewReader(raw))
-		if err != nil {
-			return nil, err
-		}
-		if len(f.Segments) != 1 || len(f.Segments[0].Fragments) == 0 {
-			return nil, fmt.Errorf("g_gap: unexpected structure of generated segment")
-		}
-		frs := f.Segments[0].Fragments
-		trun := frs[len(frs)-1].Moof.Traf.Trun
-		if !trun.HasSampleDuration() || trun.Samples[len(trun.Samples)-1].Dur != 3000 {
-			return nil, fmt.Errorf("g_gap: generated segment has no per-sample durations of 3000")
-		}
-		trun.Samples[len(trun.Samples)-1].Dur = 1500
-		var buf bytes.Buffer
-		if err := f.Encode(&buf); err != nil {
-			return nil, err
-		}
-		if err := os.WriteFile(sp, buf.Bytes(), 0o644); err != nil {
+		if err := shortenLastSample(filepath.Join(root, "g_gap", "V300", "1.m4s"), 3000, 1500); err != nil {
 			return nil, err
 		}
 		res = append(res, &assetTruth{Name: "g_gap", Adm: true, V: t.Video, A: t.Audio, MediaGap: true})
@@ -311,6 +322,53 @@ func buildMaster(root string) ([]*assetTruth, error) {
 			return nil, fmt.Errorf("bad_ms is admissible?")
 		}
 		res = append(res, &assetTruth{Name: "bad_ms", Adm: false, V: t.Video})
+	}
+	// loop-duration family (ground truth by construction: loop ticks L, timescale TS; admissible iff L*1000 mod TS = 0):
+	// whole-ms base layouts whose LAST sample is cut / extended so that the loop lands on, just under or just over a
+	// whole millisecond, at timescales that are not multiples of 1000 (the ms <-> tick conversion is not exact there).
+	for _, rl := range []struct {
+		name      string
+		ts, sd    int64
+		segs      []int
+		cut       int // ticks removed from the last sample
+		wantAdm   bool
+		thorough  bool
+	}{
+		{"r15360_7975", 15360, 512, []int{60, 60, 60, 60}, 384, true, false},   // 122496 ticks = 7975 ms exactly
+		{"r44100_8000", 44100, 1470, []int{60, 60, 60, 60}, 0, true, false},     // 352800 ticks = 8000 ms
+		{"r15360_fl", 15360, 512, []int{60, 60, 60, 60}, 16, false, false},      // 122864 = floor(7999 ms): 7998.958 ms
+		{"r15360_ce", 15360, 512, []int{60, 60, 60, 60}, 15, false, false},      // 122865 = ceil(7999 ms): 7999.023 ms
+		{"r15360_m1", 15360, 512, []int{60, 60, 60, 60}, 1, false, false},       // one tick short of 8000 ms
+		{"r15360_p1", 15360, 512, []int{60, 60, 60, 60}, -1, false, true},       // one tick over 8000 ms
+		{"r12800_fl", 12800, 512, []int{50, 50, 50, 50}, 13, false, false},      // 102387 = floor(7999 ms): 7998.984 ms
+		{"r12800_ce", 12800, 512, []int{50, 50, 50, 50}, 12, false, true},       // 102388 = ceil(7999 ms)
+		{"r44100_fl", 44100, 1470, []int{60, 60, 60, 60}, 45, false, false},     // 352755 = floor(7999 ms): 7998.98 ms
+		{"r44100_ce", 44100, 1470, []int{60, 60, 60, 60}, 44, false, true},      // 352756 = ceil(7999 ms)
+		{"r90000_m1", 90000, 3000, []int{60, 60, 60, 60}, 1, false, false},      // 719999 ticks
+		{"r90000_p1", 90000, 3000, []int{60, 60, 60, 60}, -1, false, true},      // 720001 ticks
+	} {
+		if rl.thorough && !thoroughLayouts {
+			continue
+		}
+		l := assetgen.Layout{Name: rl.name, TS: rl.ts, SampleDur: rl.sd, SegSamples: rl.segs, MpdStyle: "number"}
+		t, err := gen(l)
+		if err != nil {
+			return nil, err
+		}
+		v := t.Video
+		if rl.cut != 0 {
+			if err := shortenLastSample(filepath.Join(root, rl.name, "V300", fmt.Sprintf("%d.m4s", len(rl.segs))), uint32(rl.sd), rl.cut); err != nil {
+				return nil, err
+			}
+			v.Dur[len(v.Dur)-1] -= int64(rl.cut)
+			v.L -= int64(rl.cut)
+			v.SampleDur = 0
+		}
+		adm := (v.L*1000)%v.TS == 0
+		if adm != rl.wantAdm {
+			return nil, fmt.Errorf("layout %s: admissible=%v by construction, meant %v (L=%d TS=%d)", rl.name, adm, rl.wantAdm, v.L, v.TS)
+		}
+		res = append(res, &assetTruth{Name: rl.name, Adm: adm, V: v, Rounding: true})
 	}
 	// inadmissible 2: two video representations of 4 s and 3 s
 	{
@@ -337,6 +395,7 @@ func buildMaster(root string) ([]*assetTruth, error) {
 			return nil, err
 		}
 		a.TL = &tl.Asset{Name: a.Name, Video: a.V, Audio: a.A}
+		a.Gen = a.Name != "testpic_2s"
 	}
 	return res, nil
 }
@@ -354,6 +413,7 @@ type req struct {
 	// contiguity window membership: rep id and position (>= 0) in the window n0..; -1 otherwise
 	rep string
 	pos int
+	far int // 1 + j for the far-from-epoch request of video segment k*N+j (j = 0, 1); 0 otherwise
 }
 
 type pool struct {
@@ -373,6 +433,28 @@ func buildPool(assets []*assetTruth, ref *srv.S) (*pool, error) {
 		num := tl.Cfg{Mode: "number", SNR: -1, TSBD: -1}
 		tim := tl.Cfg{Mode: "time", SNR: -1, TSBD: -1}
 		tnr := tl.Cfg{Mode: "tlnr", SNR: -1, TSBD: -1}
+		if !a.Adm {
+			// must be left out: a short probe of every request kind
+			for _, c := range []tl.Cfg{num, tim, tnr} {
+				add("mpd", c.Prefix(a.Name)+"/"+a.MPDs[0], t1MS)
+			}
+			add("mpd", num.Prefix(a.Name)+"/"+a.MPDs[0], t2MS)
+			add("init", num.Prefix(a.Name)+"/"+a.V.InitURI, t1MS)
+			for n := int64(0); n <= int64(a.V.N); n++ {
+				add("seg", tl.SegURL(num, a.TL, a.V, n), t1MS)
+			}
+			add("time", tl.SegURL(tim, a.TL, a.V, 1), t1MS)
+			lms := a.V.L * 1000 / a.V.TS
+			add("far", tl.SegURL(num, a.TL, a.V, (t2MS-30_000)/lms*int64(a.V.N)), t2MS)
+			add("drm", tl.Cfg{Mode: "number", SNR: -1, TSBD: -1, Extra: []string{"eccp_cbcs"}}.Prefix(a.Name)+"/"+a.V.InitURI, t1MS)
+			if a.Name == "bad_dur" {
+				add("init", num.Prefix(a.Name)+"/V600/init.mp4", t1MS)
+				add("seg", fmt.Sprintf("%s/V600/%d.m4s", num.Prefix(a.Name), 1), t1MS)
+			}
+			p.byAsset[a.Name] = rs
+			p.n += len(rs)
+			continue
+		}
 		for _, m := range a.MPDs {
 			for _, c := range []tl.Cfg{num, tim, tnr} {
 				for _, now := range []int64{t1MS, t2MS} {
@@ -426,6 +508,9 @@ func buildPool(assets []*assetTruth, ref *srv.S) (*pool, error) {
 			k := (t2MS - 30_000) / loopMS
 			for j := int64(0); j < 3; j++ {
 				add("far", tl.SegURL(num, a.TL, rt, k*N+j), t2MS)
+				if rt == a.V && j < 2 {
+					rs[len(rs)-1].far = int(j) + 1
+				}
 			}
 			add("far", tl.SegURL(tl.Cfg{Mode: "number", SNR: 7, TSBD: -1}, a.TL, rt, k*N+1), t2MS)
 			add("far", tl.SegURL(num, a.TL, rt, (k+100)*N), t2MS) // not yet available
@@ -495,6 +580,8 @@ type assetObs struct {
 	cls    []clsSum
 	per    []string            // per request "status:digest" (for the diff against the reference; not part of the verdict)
 	win    map[string][]winSeg // rep -> window
+	far    [2]winSeg           // video segments k*N, k*N+1 far from the epoch
+	farSt  [2]int
 }
 
 var sectionRe = regexp.MustCompile(`(?s)<section>(.*?)</section>`)
@@ -581,6 +668,12 @@ func observe(s *srv.S, assets []*assetTruth, p *pool, memo *parseMemo, wantWin b
 			}
 			fmt.Fprintf(x.h, "%s %d %s\n", rq.url, status, dig)
 			o.per = append(o.per, fmt.Sprintf("%d:%s", status, dig[:min(12, len(dig))]))
+			if wantWin && rq.far > 0 {
+				o.farSt[rq.far-1] = status
+				if status == 200 {
+					o.far[rq.far-1] = memo.get(body, dig, a.V)
+				}
+			}
 			if wantWin && rq.pos >= 0 && status == 200 {
 				rt := a.V
 				if a.A != nil && rq.rep == a.A.ID {
@@ -695,8 +788,72 @@ func (wk *worker) emitTimeline(inst int, s *srv.S, a *assetTruth) {
 		if len(o.t) >= a.V.N+1 {
 			wk.fullTimelines++
 		}
-		wk.w.Emit(tr.E{"ev": "mtl", "inst": inst, "asset": a.Name, "rep": o.rep, "N": a.V.N, "t": o.t, "d": o.d, "st": o.st, "tfdt": o.tfdt})
+		var base int64
+		if len(o.t) > 0 {
+			base = o.t[0]
+		}
+		served := make([]int64, len(o.tfdt))
+		for i, v := range o.tfdt {
+			served[i] = v
+			if v < 0 { // nothing parseable was served: the status says so (200 -> -200)
+				served[i] = base
+				if o.st[i] == 200 {
+					o.st[i] = -200
+				}
+			}
+		}
+		t, o1 := rebase32(o.t, base)
+		tf, o2 := rebase32(served, base)
+		d, o3 := rebase32(o.d, 0)
+		wk.w.Emit(tr.E{"ev": "mtl", "inst": inst, "asset": a.Name, "rep": o.rep, "N": a.V.N, "t0": fmt.Sprint(base), "t": t, "d": d, "st": o.st,
+			"tfdt": tf, "ovf": o1 || o2 || o3})
 	}
+}
+
+// emitFar: video segments k*N and k*N+1 far from the epoch as served, against the construction of the asset: the decode time
+// must be k*L + start(j) exactly (L = loop in ticks). Logged as pairs over L.
+func (wk *worker) emitFar(inst int, a *assetTruth, o *assetObs) {
+	if !a.Gen || !a.Adm {
+		return
+	}
+	L := a.V.L
+	k := (t2MS - 30_000) / (L * 1000 / a.V.TS)
+	st, w, r := []int{}, []int64{}, []int64{}
+	for j := 0; j < 2; j++ {
+		st = append(st, o.farSt[j])
+		if o.far[j].ok {
+			pr := project.Pair(o.far[j].tfdt, L)
+			if pr[0] > int32Max {
+				pr[0] = int32Max // cannot equal k (< 2^31 - 1 by the choice of t2)
+			}
+			w, r = append(w, pr[0]), append(r, pr[1])
+		} else {
+			w, r = append(w, -1), append(r, -1)
+		}
+	}
+	wk.farChecks++
+	wk.w.Emit(tr.E{"ev": "far", "inst": inst, "asset": a.Name, "rep": a.V.ID, "N": a.V.N, "L": L, "TS": a.V.TS, "k": k,
+		"st": st, "w": w, "r": r, "exp": []int64{a.V.Vod0, a.V.Vod0 + a.V.Dur[0]}})
+}
+
+const int32Max = int64(1_000_000_000) // clamp limit: sums of two clamped values still fit TLC's 32-bit integers
+
+// rebase32 returns vs[i] - base clamped to the 32-bit range TLC's integers have, and whether anything was clamped.
+// (Times served by a broken table can be arbitrarily large; within one window of N+2 consecutive segments of the
+// assets built here all true times are far less than 2^31 ticks apart.)
+func rebase32(vs []int64, base int64) ([]int64, bool) {
+	out := make([]int64, len(vs))
+	ovf := false
+	for i, v := range vs {
+		d := v - base
+		if d > int32Max {
+			d, ovf = int32Max, true
+		} else if d < -int32Max {
+			d, ovf = -int32Max, true
+		}
+		out[i] = d
+	}
+	return out, ovf
 }
 
 func startServer(vod, rdRoot string, write bool) (s *srv.S, errStr string) {
@@ -817,7 +974,15 @@ func damage(dir, rep, kind string, rng *rand.Rand) (string, int, bool, error) {
 		}
 		return "gunzipped", 0, true, os.WriteFile(base, plain, 0o644)
 	case "garbage":
-		switch v := rng.Intn(6); {
+		switch v := rng.Intn(8); {
+		case v >= 6 && goodJSON[rep] != nil:
+			// well-formed JSON with one value of another type
+			ds, err := typedDamages(goodJSON[rep])
+			if err != nil {
+				return "", 0, false, err
+			}
+			d := ds[rng.Intn(len(ds))]
+			return "typed:" + d.Path + "=" + d.Value, 0, true, writeTyped(dir, rep, d)
 		case v == 0:
 			b := make([]byte, 1+rng.Intn(300))
 			rng.Read(b)
@@ -850,6 +1015,225 @@ func removeRep(dir, rep string) {
 	_ = os.Remove(base + ".gz")
 }
 
+// ---------------------------------------------------------------- type-level damage of well-formed metadata files
+
+// goodJSON: the plain JSON of every metadata file as a write-mode server writes it (captured once; read-only afterwards).
+var goodJSON = map[string][]byte{}
+
+type typedDamage struct {
+	Path  string // "field" or "segments[i].field"
+	Value string // replacement (JSON text)
+}
+
+var wrongValues = []string{`"x"`, `"false"`, `-3`, `1e30`, `99999999999999999999`, `1.5`, `null`, `true`, `[]`, `{}`, `[{"a":[1]}]`, `[1,"x"]`}
+
+func jsonKind(raw json.RawMessage) string {
+	t := bytes.TrimSpace(raw)
+	if len(t) == 0 {
+		return "?"
+	}
+	switch t[0] {
+	case '"':
+		return "string"
+	case '{':
+		return "object"
+	case '[':
+		return "array"
+	case 't', 'f':
+		return "bool"
+	case 'n':
+		return "null"
+	}
+	return "number"
+}
+
+// replacements for a value: every wrong value whose JSON type differs, plus for numbers the out-of-range / negative /
+// fractional numbers
+func replacementsFor(raw json.RawMessage) []string {
+	k := jsonKind(raw)
+	var res []string
+	for _, v := range wrongValues {
+		vk := jsonKind(json.RawMessage(v))
+		if vk == k && k != "number" && k != "array" {
+			continue
+		}
+		if k == "string" && vk == "string" {
+			continue
+		}
+		res = append(res, v)
+	}
+	return res
+}
+
+// typedDamages enumerates (field, replacement) for one real metadata file: every top-level field and every field of the
+// first and the last entry of the segment table.
+func typedDamages(plain []byte) ([]typedDamage, error) {
+	var top map[string]json.RawMessage
+	if err := json.Unmarshal(plain, &top); err != nil {
+		return nil, err
+	}
+	keys := make([]string, 0, len(top))
+	for k := range top {
+		keys = append(keys, k)
+	}
+	sort.Strings(keys)
+	var res []typedDamage
+	for _, k := range keys {
+		for _, v := range replacementsFor(top[k]) {
+			res = append(res, typedDamage{k, v})
+		}
+	}
+	var segs []map[string]json.RawMessage
+	if err := json.Unmarshal(top["segments"], &segs); err != nil || len(segs) == 0 {
+		return nil, fmt.Errorf("metadata file without a segment table: %v", err)
+	}
+	for _, i := range []int{0, len(segs) - 1} {
+		sk := make([]string, 0, len(segs[i]))
+		for k := range segs[i] {
+			sk = append(sk, k)
+		}
+		sort.Strings(sk)
+		for _, k := range sk {
+			for _, v := range replacementsFor(segs[i][k]) {
+				res = append(res, typedDamage{fmt.Sprintf("segments[%d].%s", i, k), v})
+			}
+		}
+		for _, v := range []string{`"x"`, `5`, `null`, `[]`} {
+			res = append(res, typedDamage{fmt.Sprintf("segments[%d]", i), v})
+		}
+	}
+	return res, nil
+}
+
+var segPathRe = regexp.MustCompile(`^segments\[(\d+)\](?:\.(\w+))?$`)
+
+// applyTyped returns the document with one value replaced; everything else keeps its bytes' meaning.
+func applyTyped(plain []byte, d typedDamage) ([]byte, error) {
+	var top map[string]json.RawMessage
+	if err := json.Unmarshal(plain, &top); err != nil {
+		return nil, err
+	}
+	if m := segPathRe.FindStringSubmatch(d.Path); m != nil {
+		var segs []json.RawMessage
+		if err := json.Unmarshal(top["segments"], &segs); err != nil {
+			return nil, err
+		}
+		var i int
+		fmt.Sscan(m[1], &i)
+		if i >= len(segs) {
+			return nil, fmt.Errorf("no segment %d", i)
+		}
+		if m[2] == "" {
+			segs[i] = json.RawMessage(d.Value)
+		} else {
+			var sm map[string]json.RawMessage
+			if err := json.Unmarshal(segs[i], &sm); err != nil {
+				return nil, err
+			}
+			if _, ok := sm[m[2]]; !ok {
+				return nil, fmt.Errorf("no field %s", d.Path)
+			}
+			sm[m[2]] = json.RawMessage(d.Value)
+			segs[i], _ = json.Marshal(sm)
+		}
+		top["segments"], _ = json.Marshal(segs)
+	} else {
+		if _, ok := top[d.Path]; !ok {
+			return nil, fmt.Errorf("no field %s", d.Path)
+		}
+		top[d.Path] = json.RawMessage(d.Value)
+	}
+	return json.Marshal(top)
+}
+
+// writeTyped installs the type-damaged variant of rep's metadata file (gzipped) under dir.
+func writeTyped(dir, rep string, d typedDamage) error {
+	plain, ok := goodJSON[rep]
+	if !ok {
+		return fmt.Errorf("no captured metadata file for %s", rep)
+	}
+	doc, err := applyTyped(plain, d)
+	if err != nil {
+		return err
+	}
+	asset, id := filepath.Split(rep)
+	base := filepath.Join(dir, asset, id+"_data.json")
+	_ = os.Remove(base)
+	if err := os.MkdirAll(filepath.Dir(base), 0o755); err != nil {
+		return err
+	}
+	return os.WriteFile(base+".gz", gz(doc), 0o644)
+}
+
+// captureGood records the metadata files a write-mode server writes (worker 0, before any behaviour).
+func (wk *worker) captureGood() error {
+	if err := wk.wipe(); err != nil {
+		return err
+	}
+	defer wk.wipe()
+	s, errStr := startServer(wk.vod, wk.rd, true)
+	if s == nil {
+		return fmt.Errorf("capture: write-mode server did not start: %s", errStr)
+	}
+	s.Cancel()
+	fl, err := cacheFiles(wk.rd)
+	if err != nil {
+		return err
+	}
+	for _, f := range fl {
+		if !strings.HasSuffix(f[0], "_data.json.gz") {
+			continue
+		}
+		data, err := os.ReadFile(filepath.Join(wk.rd, f[0]))
+		if err != nil {
+			return err
+		}
+		plain, err := gunzip(data)
+		if err != nil {
+			return fmt.Errorf("capture %s: %w", f[0], err)
+		}
+		goodJSON[strings.TrimSuffix(filepath.ToSlash(f[0]), "_data.json.gz")] = plain
+	}
+	if len(goodJSON) == 0 {
+		return fmt.Errorf("capture: write mode left no metadata files")
+	}
+	return nil
+}
+
+type sweepJob struct {
+	rep string
+	d   typedDamage
+}
+
+// runSweep: one write-mode start, then for every job: the file of the representation is replaced by the type-damaged
+// variant (only that file is damaged at any time) and a read-mode server is started.
+func (wk *worker) runSweep(idx int, root, rep string, jobs []typedDamage) error {
+	if err := wk.wipe(); err != nil {
+		return err
+	}
+	dir := wk.rdRoot(root)
+	wk.w.Emit(tr.E{"ev": "hdr", "beh": idx, "vod": wk.id, "root": root, "map": map[string]string{"r1": rep, "r2": "-"},
+		"desc": fmt.Sprintf("%s:S+ then %d x [type-damage(%s) S-]", root, len(jobs), rep)})
+	s, errStr := startServer(wk.vod, dir, true)
+	wk.emitInstance(0, true, root, s, errStr)
+	if s != nil {
+		s.Cancel()
+	}
+	for i, d := range jobs {
+		if err := writeTyped(dir, rep, d); err != nil {
+			return fmt.Errorf("sweep %s %v: %w", rep, d, err)
+		}
+		wk.w.Emit(tr.E{"ev": "damage", "rep": rep, "kind": "garbage", "variant": "typed:" + d.Path + "=" + d.Value, "off": 0, "precond": true})
+		s, errStr := startServer(wk.vod, dir, false)
+		wk.emitInstance(i+1, false, root, s, errStr)
+		if s != nil {
+			s.Cancel()
+		}
+		wk.sweeps++
+	}
+	return nil
+}
+
 // ---------------------------------------------------------------- worker
 
 type worker struct {
@@ -864,7 +1248,8 @@ type worker struct {
 
 	instances, cacheRead, requests int
 	fullWindows, precondFailed     int
-	fullTimelines                  int
+	fullTimelines, farChecks       int
+	sweeps                         int
 	tStart, tObs                   time.Duration
 	outcomes                       map[string]int
 	samples                        []any
@@ -933,6 +1318,7 @@ func (wk *worker) emitInstance(inst int, write bool, root string, s *srv.S, errS
 		wk.w.Emit(tr.E{"ev": "asset", "inst": inst, "asset": a.Name, "listed": o.listed, "cls": o.cls, "diff": diff})
 		if wantWin && oc != "absent" {
 			wk.emitTimeline(inst, s, a)
+			wk.emitFar(inst, a, o)
 			for _, rt := range []*project.RepTruth{a.V, a.A} {
 				if rt == nil || (a.MediaGap && rt == a.V) {
 					continue
@@ -949,7 +1335,14 @@ func (wk *worker) emitInstance(inst int, write bool, root string, s *srv.S, errS
 				if len(tf) >= a.V.N+1 {
 					wk.fullWindows++
 				}
-				wk.w.Emit(tr.E{"ev": "tl", "inst": inst, "asset": a.Name, "rep": rt.ID, "N": a.V.N, "n0": 0, "tfdt": tf, "dur": du})
+				var base int64
+				if len(tf) > 0 {
+					base = tf[0]
+				}
+				tfr, o1 := rebase32(tf, base)
+				dur, o2 := rebase32(du, 0)
+				wk.w.Emit(tr.E{"ev": "tl", "inst": inst, "asset": a.Name, "rep": rt.ID, "N": a.V.N, "n0": 0, "t0": fmt.Sprint(base), "tfdt": tfr, "dur": dur,
+					"ovf": o1 || o2})
 			}
 		}
 	}
@@ -1065,6 +1458,7 @@ func (wk *worker) reference(buildPoolNow bool) error {
 			// the scanning server's own declared timeline against what it serves (inst -1)
 			before := wk.fullTimelines
 			wk.emitTimeline(-1, s, a)
+			wk.emitFar(-1, a, o)
 			if wk.fullTimelines-before == 0 {
 				return fmt.Errorf("reference server: no complete declared timeline for asset %s", a.Name)
 			}
@@ -1136,6 +1530,7 @@ func Main(args []string) error {
 	seed := fs.Int64("seed", 1, "seed")
 	n := fs.Int("n", 0, "number of behaviours to replay (0 = all); behaviours ending in Start, Start(read) are always kept (they cover every shorter behaviour as a prefix)")
 	workers := fs.Int("workers", 4, "parallel workers (one VoD root copy each)")
+	thorough := fs.Bool("thorough", false, "all loop-duration layouts, full type-damage product")
 	_ = fs.Parse(args)
 	debug.SetGCPercent(400) // thousands of short-lived server instances: trade memory for time
 	if *work == "" || *gen == "" {
@@ -1185,7 +1580,7 @@ func Main(args []string) error {
 	// VoD roots
 	_ = os.RemoveAll(*work)
 	master := filepath.Join(*work, "master")
-	assets, err := buildMaster(master)
+	assets, err := buildMaster(master, *thorough)
 	if err != nil {
 		return err
 	}
@@ -1213,6 +1608,61 @@ func Main(args []string) error {
 	if err != nil {
 		return err
 	}
+	if err := wks[0].captureGood(); err != nil {
+		return err
+	}
+	// type-damage sweep: chunks of (representation, [field := wrong-typed value ...])
+	type sweepChunk struct {
+		rep  string
+		root string
+		jobs []typedDamage
+	}
+	var chunks []sweepChunk
+	sweepReps := []string{"g_irr90k/V300", "testpic_2s/A48", "g_1001tl/V300"}
+	if *thorough {
+		sweepReps = append(sweepReps, "g_twov/V600", "testpic_2s/V300", "g_gap/A48", "r15360_7975/V300", "testpic_2s/thumbs")
+	}
+	sweepFields := map[string]bool{}
+	for ri, rep := range sweepReps {
+		if goodJSON[rep] == nil {
+			return fmt.Errorf("sweep: no metadata file captured for %s", rep)
+		}
+		ds, err := typedDamages(goodJSON[rep])
+		if err != nil {
+			return err
+		}
+		var jobs []typedDamage
+		if *thorough {
+			jobs = ds
+		} else {
+			// every field once or twice, the replacement values seeded
+			byPath := map[string][]typedDamage{}
+			var order []string
+			for _, d := range ds {
+				if byPath[d.Path] == nil {
+					order = append(order, d.Path)
+				}
+				byPath[d.Path] = append(byPath[d.Path], d)
+			}
+			for pi, pth := range order {
+				c := byPath[pth]
+				jobs = append(jobs, c[rng.Intn(len(c))])
+				if (pi+ri)%2 == 0 {
+					jobs = append(jobs, c[rng.Intn(len(c))])
+				}
+			}
+		}
+		for _, d := range jobs {
+			sweepFields[d.Path] = true
+		}
+		for i := 0; i < len(jobs); i += 12 {
+			root := "separate"
+			if (i/12+ri)%2 == 1 {
+				root = "same"
+			}
+			chunks = append(chunks, sweepChunk{rep, root, jobs[i:min(i+12, len(jobs))]})
+		}
+	}
 	if !probe {
 		return fmt.Errorf("vacuity probe: an altered (valid) metadata file did not change the answers for its asset - the cache is not read")
 	}
@@ -1227,6 +1677,12 @@ func Main(args []string) error {
 			for idx := k; idx < len(sel); idx += len(wks) {
 				mp := mappings[(idx+mapOff)%len(mappings)]
 				if err := wk.runBeh(idx, sel[idx], mp, *seed); err != nil {
+					errs[k] = err
+					return
+				}
+			}
+			for ci := k; ci < len(chunks); ci += len(wks) {
+				if err := wk.runSweep(1_000_000+ci, chunks[ci].root, chunks[ci].rep, chunks[ci].jobs); err != nil {
 					errs[k] = err
 					return
 				}
@@ -1247,7 +1703,7 @@ func Main(args []string) error {
 			return e
 		}
 	}
-	events, instances, cacheRead, requests, fullWindows, precondFailed, fullTimelines := 0, 0, 0, 0, 0, 0, 0
+	events, instances, cacheRead, requests, fullWindows, precondFailed, fullTimelines, farChecks, sweeps := 0, 0, 0, 0, 0, 0, 0, 0, 0
 	var tStart, tObs time.Duration
 	outcomes := map[string]int{}
 	var traces []string
@@ -1262,6 +1718,8 @@ func Main(args []string) error {
 		fullWindows += wk.fullWindows
 		precondFailed += wk.precondFailed
 		fullTimelines += wk.fullTimelines
+		farChecks += wk.farChecks
+		sweeps += wk.sweeps
 		tStart += wk.tStart
 		tObs += wk.tObs
 		for o, c := range wk.outcomes {
@@ -1288,7 +1746,7 @@ func Main(args []string) error {
 	}
 	tr.PrintStats(map[string]any{"scenarios": len(sel), "behaviours_available": len(all), "events": events, "distinct": len(distinct),
 		"samples": samples, "instances": instances, "cache_read_instances": cacheRead, "requests": requests, "pool": wks[0].pool.n + 1,
-		"outcomes": outcomes, "assets": names, "traces": traces, "probe_cache_is_read": probe, "full_contig_windows": fullWindows, "full_declared_timelines": fullTimelines, "damage_on_unusable_file": precondFailed, "workers": len(wks),
+		"outcomes": outcomes, "assets": names, "traces": traces, "probe_cache_is_read": probe, "full_contig_windows": fullWindows, "full_declared_timelines": fullTimelines, "far_exact_checks": farChecks, "type_damage_instances": sweeps, "type_damage_fields": len(sweepFields), "damage_on_unusable_file": precondFailed, "workers": len(wks),
 		"cpu_start_s": tStart.Seconds(), "cpu_observe_s": tObs.Seconds()})
 	return nil
 }
